@@ -22,6 +22,11 @@
  *      and a later frame that is legal by the documentation is accepted and
  *      encoded normally (continuity counter continues).
  *
+ * The key of the field order rule ("field_parity goes back ...") carries the
+ * class of the INPUT frame (field_order_class(), C06_run.h): the known cause
+ * (undefined-line unit after a second-field raw line) and every other frame
+ * have different keys.
+ *
  * Phases: frames3 (every frame of <= 3 lines over 8 lines x 4 services, all
  * configurations), dense (every window of the full 33/32/35 line frames), raw
  * (1..720 samples x contexts), hist-* (E2 over frame sequences from a 14 letter
@@ -37,6 +42,15 @@
  *  - E1 buffer sizes: default = whole output, deviations 1, 4, 187, 188, 189;
  *    constant-size runs (every call the same size) are added because the
  *    deviation bound cannot reach "all calls 1 byte".
+ *  - E2 states merge within one depth only: PTS and payloads of a frame depend
+ *    on its position in the history (so that repeated letters stay
+ *    distinguishable in the round trip).
+ *  - thorough does not run the full product for 3-line frames either: all 120
+ *    configurations, but one of the 5 PTS values per (frame, configuration).
+ *  - phase raw runs each case in a forked child and resumes behind an
+ *    execution that aborted (guarded() in C06_run.h): the unchanged tree aborts
+ *    in encode_stuffing() for ~360 (quick) executions, which would otherwise
+ *    end the phase after 40 crashing cases.
  *  - src/dvb_mux.c is included for struct _vbi_dvb_mux only (canonical state of
  *    the E2 search); no function or constant of it is used by the oracle.
  */
@@ -189,7 +203,7 @@ out:
 /* ======================================================================== */
 /* phase raw                                                                 */
 
-#define NRAWCTX 10
+#define NRAWCTX 13
 static void raw_ctx(int ctx, int n, int off, struct h_frame *f)
 {
         f_reset(f, 0x12345678ll); f_raw(f, n, off);
@@ -204,10 +218,15 @@ static void raw_ctx(int ctx, int n, int off, struct h_frame *f)
         case 6: f_add(f, T, 320, 3); f_add(f, R, 321, 0); f_add(f, T, 0, 4); break;
         case 7: f_add(f, VBI_SLICED_VPS, 16, 0); f_add(f, R, 17, 0); f_add(f, VBI_SLICED_WSS_625, 23, 0); break;
         case 8: f_add(f, R, 320, 0); f_add(f, T, 0, 4); break;
+        case 10: f_add(f, T, 320, 3); f_add(f, R, 321, 0); f_add(f, T, 0, 4); f->mask = ALL_SERVICES & ~VBI_SLICED_VBI_625; break;   /* raw entry masked out */
+        case 11: f_add(f, T, 7, 3); f_add(f, R, 8, 0); f_add(f, T, 0, 4); f_add(f, T, 320, 3); f_add(f, R, 322, 0); f_add(f, T, 330, 3); f_add(f, T, 0, 5); break;   /* undefined lines after raw lines, no field change missed */
+        case 12: f_add(f, R, 20, 0); f_add(f, R, 325, 0); f_add(f, R, 331, 0); break;             /* in every raw buffer geometry of GEO[] */
         case 9: f_add(f, T, 7, 3); f_add(f, R, 20, 0); f_add(f, VBI_SLICED_CAPTION_625_F1, 21, 0); f_add(f, T, 22, 3); f_add(f, R, 330, 0); break;
         }
 }
 struct raw_blk { int n, ctx, start; };
+#define NRAWGEOCTX 6
+static const int RAWGEOCTX[NRAWGEOCTX] = { 1, 2, 5, 9, 12, 11 };   /* contexts with raw lines in the first, the second and both fields */
 static void raw_block(void *arg)
 {
         const struct raw_blk *b = arg; int n = b->n;
@@ -230,7 +249,21 @@ static void raw_block(void *arg)
                                 mc_count("evaluations", single(&c, &f, IF_FEED));
                         }
                 }
-                mc_distinct(0xBA000000ull + (uint64_t) (n - 1) * 64 + ctx * 4 + d);
+        }
+        /* raw buffer geometry (which lines, field counts, row order) x contexts: samples must come from the right row.
+         * The geometry only matters where the row is looked up, so it is not multiplied with sizes and PES/TS. */
+        for (int gi = 1; gi < NGEO; gi++)
+        for (int k = 0; k < NRAWGEOCTX; k++)
+        for (int d = 0; d < 4; d++) {
+                if (!full_tier() && (d == 1 || d == 3)) continue;
+                for (int o = 0; o < (full_tier() ? 2 : 1); o++) {
+                        if (o == 1 && n == 720) continue;
+                        struct h_cfg c = { DIDS[d], 184, 65504, (gi + k) & 1, 0x1FFE };
+                        struct h_frame f; raw_ctx(RAWGEOCTX[k], n, o ? 852 - n : 132, &f); f.raw_geo = gi;
+                        if (i++ < b->start) continue;
+                        if (G) G->idx = i - 1;
+                        mc_count("evaluations", single(&c, &f, IF_FEED));
+                }
         }
 }
 /* One case = one sample count x one data_identifier class would lose the rest of the case when the
@@ -240,7 +273,10 @@ static void raw_case(uint64_t idx, void *arg)
         int n = (int) idx + 1;
         struct raw_blk b = { n, 0, 0 };
         while (guarded(raw_block, &b)) { if (G->idx < b.start) h_die("raw block died outside an execution"); b.start = G->idx + 1; }   /* go on behind the execution that died */
-        if (n == 131) { struct h_frame f; raw_ctx(0, n, 132, &f); mc_sample("raw: %s and 9 other contexts x data_identifiers x sp.offset {132, 852-n, middle} x size pairs x PES/TS", frame_str(&f)); }
+        /* (records made in the child do not reach the engine: the distinct cases are registered here) */
+        for (int ctx = 0; ctx < NRAWCTX; ctx++) for (int d = 0; d < 4; d++) if (full_tier() || d == 0 || d == 2) mc_distinct(0xBA000000ull + (uint64_t) (n - 1) * 64 + ctx * 4 + d);
+        for (int gi = 1; gi < NGEO; gi++) for (int k = 0; k < NRAWGEOCTX; k++) mc_distinct(0xBB000000ull + (uint64_t) (n - 1) * 64 + gi * 8 + k);
+        if (n == 131) { struct h_frame f; raw_ctx(0, n, 132, &f); mc_sample("raw: %s and 12 other contexts x data_identifiers x sp.offset {132, 852-n, middle} x size pairs x PES/TS", frame_str(&f)); }
 }
 
 /* ======================================================================== */
@@ -459,7 +495,7 @@ int main(int argc, char **argv)
         mc_meta("level", "model_checking");
         mc_meta("technique", "bounded-exhaustive frames x configurations through the real multiplexer, independent standards parser + library demultiplexer round trip; E2 over frame sequences with canonical multiplexer/demultiplexer state; E1 over coroutine buffer sizes");
         mc_meta("rule", "a case is one (frame or frame sequence, configuration, interface); distinct counts (frame, data_identifier, PES/TS) resp. merged E2 states; every case reaches generate_pes_packet (accepted or rejected is an outcome)");
-        mc_meta("bound", "frames: all <=3-line frames over lines {0,7,16,21,22,23,320,335} x {ttx,vps,wss,cc}; all windows of the 33/32/35-line frames; raw lines of 1..720 samples x 10 contexts x 3 positions; configurations 4 data_identifiers x 10 (min,max) pairs of {184,368,1472,65504} x {PES, TS 0010, TS 1FFE} x 5 PTS (3-line frames: one of the 5 PTS per frame and configuration, rotating; quick: 3-line frames at the default size pair only, dense frames PTS rotating, raw at 3 size pairs and 2 data_identifiers); histories of <= %d frames from 14 letters x 24 configurations; coroutine buffer size vectors with <= %d deviations + 10 constant sizes", full_tier() ? 4 : 3, full_tier() ? 4 : 3);
+        mc_meta("bound", "frames: all <=3-line frames over lines {0,7,16,21,22,23,320,335} x {ttx,vps,wss,cc}; all windows of the 33/32/35-line frames; raw lines of 1..720 samples x 13 contexts x 3 positions, and x 7 further raw buffer geometries (field counts 16+17, 17+12, 6+17, 17+15 sequential; 17+17, 12+12 interlaced; 16+17 interlaced = invalid) x 6 contexts; configurations 4 data_identifiers x 10 (min,max) pairs of {184,368,1472,65504} x {PES, TS 0010, TS 1FFE} x 5 PTS (3-line frames: one of the 5 PTS per frame and configuration, rotating; quick: 3-line frames at the default size pair only, dense frames PTS rotating, raw at 3 size pairs and 2 data_identifiers); histories of <= %d frames from 14 letters x 24 configurations; coroutine buffer size vectors with <= %d deviations + 10 constant sizes", full_tier() ? 4 : 3, full_tier() ? 4 : 3);
         mc_meta("assume", "the TS demultiplexer gets a leading stuffing-only TS packet (its loss of a first one-TS-packet PES packet is C07's finding)");
         mc_meta("assume", "raw lines are checked by the parser only: the public demultiplexer does not deliver raw lines");
         mc_meta("assume", "WSS has 14 payload bits: bits 6,7 of the second sliced byte are not compared");
